@@ -14,6 +14,7 @@ VERUS = [dict(
     twins=[],
     # R8 (generic): every statement whose only effect is on the hit counters is dropped
     global_edits=[dict(rule="R8", regex=r"\*?self\.hits\.[^;{}]*;", replace="", count="any")],
+    global_edits_post=[dict(rule="R19", option_adapters=True)],
     items=[
         dict(file=F, path=["struct ValueEntry"]),
         dict(file=F, path=["struct DefaultCacheState"], prefix=RR,
